@@ -153,6 +153,40 @@ def body_rewrites(src, lo, hi, edits, subst, stats, opts):
         bare = (t.kind == "ident" and t.text in ("debug_assert", "debug_assert_eq", "debug_assert_ne", "assert", "assert_eq",
                                                   "assert_ne", "unreachable", "panic", "todo", "unimplemented")
                 and i + 1 < hi and toks[i + 1].text == "!" and (i == lo or toks[i - 1].text != ":"))
+        # ---- R20: `let [a, b, c] = EXPR;` (irrefutable array pattern of plain identifiers; Verus has no slice patterns) ->
+        #      `let __arrK = EXPR; let a = __arrK[0]; let b = __arrK[1]; ..` - what the pattern binds, by definition
+        if t.kind == "ident" and t.text == "let" and i + 1 < hi and toks[i + 1].text == "[":
+            j = i + 2
+            names = []
+            okp = True
+            while j < hi and toks[j].text != "]":
+                if toks[j].kind == "ident" and toks[j + 1].text in (",", "]"):
+                    names.append(toks[j].text)
+                    j += 1
+                    if toks[j].text == ",":
+                        j += 1
+                else:
+                    okp = False
+                    break
+            if okp and names and j + 1 < hi and toks[j + 1].text == "=":
+                # end of the statement: the `;` at depth 0
+                dpt = 0
+                e = j + 2
+                while e < hi:
+                    x = toks[e].text
+                    if x in "([{":
+                        dpt += 1
+                    elif x in ")]}":
+                        dpt -= 1
+                    elif x == ";" and dpt == 0:
+                        break
+                    e += 1
+                if e < hi:
+                    k = stats.get("R20", 0)
+                    arr = f"__arr{k}"
+                    edits.add(toks[i + 1].start, toks[j].end, arr, "R20", "array pattern let => indexed lets")
+                    edits.add(toks[e].end, toks[e].end, " " + " ".join(f"let {n} = {arr}[{q}];" for q, n in enumerate(names)), "R20", "")
+                    stats["R20"] = k + 1
         # ---- R17: `unsafe { .. }` block -> plain block (Verus has no unsafe blocks); the safety condition of what is called
         #      inside must then be carried as a `requires` by the callee's contract, i.e. it becomes a proof obligation
         if t.kind == "ident" and t.text == "unsafe" and i + 1 < hi and toks[i + 1].text == "{":
@@ -974,7 +1008,15 @@ def gen_fragment(repo, d, body, report):
         a0 = f["body_open"] + 1          # structural anchor: the first statement of the function body
     else:
         a0, _ = src.find_seq(f["body_open"] + 1, f["body_close"], d["from"], int(d.get("from_nth", 1)))
-    _, b1 = src.find_seq(a0, f["body_close"], d["to"], int(d.get("to_nth", 1)))
+    if d["to"].startswith("@loop_body_end"):
+        # structural anchor: the last statement of the body of loop <k> of the function (ordinal among all its loops)
+        k = int(d["to"].split()[1])
+        fl = src.loops_in(f["body_open"] + 1, f["body_close"])
+        if k >= len(fl) or not (fl[k]["body_open"] < a0 < fl[k]["body_close"]):
+            raise LostAnchor(f"fragment {d['name']}: loop {k} of {d['fn']} does not enclose the fragment start")
+        b1 = fl[k]["body_close"] - 1
+    else:
+        _, b1 = src.find_seq(a0, f["body_close"], d["to"], int(d.get("to_nth", 1)))
     spec, subs = parse_block(body)
     edits = Edits()
     stats = {}
